@@ -3,6 +3,7 @@ from .. import terms as T
 from .. import sergram
 from ..terms import sym, add, mul, sub, ZERO, ONE, fld, sel
 from .common import *
+from .common import Proxy, share
 from .C12 import DRV_OPAQUE, CB_OPAQUE
 
 STATE_GETTER = {'hep::plain': None, 'hep::vegas': 'hep::vegas_chkpt::pdf',
@@ -10,47 +11,6 @@ STATE_GETTER = {'hep::plain': None, 'hep::vegas': 'hep::vegas_chkpt::pdf',
                 'hep::mpi_plain': None, 'hep::mpi_vegas': 'hep::vegas_chkpt::pdf',
                 'hep::mpi_multi_channel': 'hep::multi_channel_chkpt::channel_weights'}
 STATE_VAR = {'hep::mpi_vegas': 'pdf', 'hep::mpi_multi_channel': 'weights'}
-
-
-class Proxy:
-    """forwards to a Ctx with a rule-name prefix (used to run the format rules of C05 as C03/R3);
-    `only`: forward only rules whose name starts with one of these prefixes"""
-    def __init__(self, ctx, prefix, only=None):
-        self._c = ctx
-        self._p = prefix
-        self._only = only
-
-    def _ok(self, rule):
-        return self._only is None or any(rule.startswith(o) for o in self._only)
-
-    def __getattr__(self, n):
-        return getattr(self._c, n)
-
-    def holds(self, rule, site, detail):
-        if self._ok(rule):
-            self._c.holds(self._p + rule, site, detail)
-
-    def violation(self, rule, site, detail, witness=None):
-        if self._ok(rule):
-            self._c.violation(self._p + rule, site, detail, witness)
-
-    def broken(self, rule, site, detail):
-        if self._ok(rule):
-            self._c.broken(self._p + rule, site, detail)
-
-    def guard(self, rule, site, fn):
-        self._c.guard(self._p + rule, site, fn)
-
-    def count(self, name, n, minimum=None):
-        if self._only is None:
-            self._c.count(name, n, minimum)
-
-    def analysed(self, f):
-        self._c.analysed(f)
-
-    def assume(self, t):
-        if self._only is None:
-            self._c.assume(t)
 
 
 def atoms_of(t):
@@ -183,7 +143,7 @@ def check(ctx):
 
     # ---------------------------------------------------------------- R3 format (shared with C05)
     from . import C05
-    C05.check(Proxy(ctx, 'R3/'))
+    share(ctx, 'C05', 'R3/', None)
 
     # ---------------------------------------------------------------- R4 the callback writes that checkpoint
     ncb = 0
@@ -213,6 +173,10 @@ def check(ctx):
                               'the two write modes', {'condition': T.pretty(pc)[:300]})
         ctx.guard('R4', fsite(f), r4)
     ctx.count('callback::operator() instantiations', ncb, 3)
+
+    from . import C15, C18
+    share(ctx, 'C15', 'R1/C15.', ['R1.generator_last', 'inv.add_appends'])
+    share(ctx, 'C18', 'R4/C18.', ['R1.'])
 
     # ---------------------------------------------------------------- R5 output depends on members only
     for base in sergram.SERIALISED:
